@@ -140,6 +140,10 @@ class NameRef:
         r = self.is_anchor if other is ANCHOR_NAME else (other is self)
         return r if isinstance(op, ast.Eq) else Not(r)
 
+    def getslice(self, it, lo, hi, node):
+        """a part of the certificate name (e.g. the key name): some other name, NOT the certificate name itself"""
+        return Opaque('name_part', f'{self.label}[{lo}:{hi}]')
+
 
 ANCHOR_NAME = Opaque('anchor_name', 'anchor')
 
@@ -239,6 +243,7 @@ class validate(Contract):
         else:
             out['no_signature_check_means_refusal'] = And(len(vs) == 0, result is False)
         out['cache_written_only_with_fetched_key'] = all(bits is app.fetched and nm is cert_name for nm, bits in storage.saves) and len(storage.saves) <= 1
+        out['cache_addressed_by_the_full_certificate_name'] = all(nm is cert_name for nm in storage.loads)
         return out
 
 
